@@ -696,9 +696,7 @@ func (env *sessionEnv) buildFrame(r *reqJ) ([]byte, map[string]interface{}, erro
 		case "off":
 			args["off"] = r.Off
 			req["off"] = posU(r.Off)
-			if r.Off >= 1<<62 {
-				huge = true
-			}
+			// (every 64-bit offset has a definite answer: beyond the end of the object)
 		case "start":
 			args["start"] = r.Start
 			req["start"] = clampInt(r.Start)
